@@ -6,10 +6,13 @@ C04 — ledger main-chain integrity under forks, reorganisations and truncation.
 Theorems about the table-level ledger model `XV.Ledger` (which mirrors `ConfirmBlock`, `handleFork`, `Truncate`):
 the tip rule (the tip moves only to a strictly higher block, so the earlier-confirmed block wins ties), monotone
 trunk height, what an extension / a side attachment / a truncation writes, and that a refused operation writes
-nothing. The full invariant (path, flags, height index, next links, tx mapping, branch tips) after *every* history
-is checked on the implementation by the oracle of the `chain` harness after every operation and the model is
-compared with the implementation's raw tables after every operation; its proof for trunk switches is not done
-(`ledger_inv` is therefore claimed as partial in the registry).
+nothing. Second part of the file: the full main-chain invariant `LedgerInv` (tree shape, path, flags, height index,
+next links, height bound, branch tips, tx mapping, no repeated transaction on a branch) holds at genesis
+(`genesis_inv`) and is preserved by every `confirm` — refused, trunk extension, side attachment and trunk switch via
+`handleFork` (`confirm_inv`) — and by `truncate` to a main-chain block (`truncate_inv`); consequences
+`tip_is_first_highest`, `isTxInTrunk_iff`, `findUndoTodo_correct`. Helper lemmas: `XV/Lemmas/LedgerInv*.lean`.
+The invariant is additionally checked on the implementation by the oracle of the `chain` harness after every
+operation, and the model is compared with the implementation's raw tables after every operation.
 -/
 namespace XV.C04
 open XV.Chain (lookup put del lookup_put lookup_del)
@@ -357,5 +360,50 @@ example :
 example :
     let s := runOps (genesis 0 [], [0]) [(1, 0, []), (2, 0, []), (3, 2, []), (4, 1, [])]
     s.1.tip = 3 ∧ s.2 = [0, 1, 2, 3, 4] ∧ (lookup s.1.B 4).map (·.height) = some s.1.trunkHeight := by decide
+
+/-! ### item (h) in full strength, and why `LedgerInv` states it in the weaker, truncation-proof form
+
+`CStored l`: every confirmed-table entry names a stored block. It holds at genesis and is preserved by `confirm`
+(`confirm_inv_cstored`, which then needs no hypothesis about left-over entries); together with `LedgerInv` it gives
+`HFull`: every transaction of a stored block is mapped to a stored block containing it. `truncate` leaves the
+confirmed table alone, so it preserves neither (`truncate_hfull_refuted`): the model (like the code, cf. the
+"old block truncated away" branch of `confirmTxs`) lives with dangling entries. -/
+
+/-- along truncation-free histories: `confirm` preserves `LedgerInv ∧ CStored` under the no-repeat hypothesis alone -/
+theorem confirm_inv_cstored (l : L) (id pre : Nat) (txs : List (Nat × Bool)) (I : LedgerInv l) (CS : CStored l)
+    (hfresh : ∀ t, t ∈ txs.map (·.1) → t ∉ branchTxs l pre) :
+    LedgerInv (confirm l id pre txs).1 ∧ CStored (confirm l id pre txs).1 :=
+  confirm_ledgerInv_cstored_dec I CS id pre txs hfresh
+
+/-- (h), full form: under `LedgerInv` and `CStored`, every transaction of a stored block is mapped by the confirmed
+table to a stored block containing it (and to THE main-chain block containing it if there is one: `c_trunk`) -/
+theorem tx_maps_to_stored_block (l : L) (I : LedgerInv l) (CS : CStored l) : HFull l := hfull_of_cstored I CS
+
+example : HFull (genesis 7 [1, 2]) := tx_maps_to_stored_block _ (genesis_inv 7 [1, 2]) (genesis_cstored 7 [1, 2])
+
+/-- the full form of (h) as an invariant of `truncate` — FALSE for the model, see `truncate_hfull_refuted` -/
+def truncate_hfull_statement : Prop :=
+  ∀ (l : L) (target : Nat), LedgerInv l → HFull l → target ∈ pathOf l l.tip → HFull (truncate l target).1
+
+/-- witness: tx 7 sits in block 1 (height 1) and in block 3 (height 2, on the main chain 3 → 2 → 0 after a switch), so
+`C 7 = 3`; truncating to block 2 removes block 3 but keeps block 1, whose transaction 7 is now mapped to a block
+that is no longer stored -/
+theorem truncate_hfull_refuted : ¬ truncate_hfull_statement := by
+  intro h
+  have I0 := genesis_inv 0 []
+  have C0 := genesis_cstored 0 []
+  obtain ⟨I1, C1⟩ := confirm_inv_cstored _ 1 0 [(7, false)] I0 C0 (by decide)
+  obtain ⟨I2, C2⟩ := confirm_inv_cstored _ 2 0 [(8, false)] I1 C1 (by decide)
+  obtain ⟨I3, C3⟩ := confirm_inv_cstored _ 3 2 [(7, false)] I2 C2 (by decide)
+  have := h _ 2 I3 (tx_maps_to_stored_block _ I3 C3) (by decide) 1 ⟨some 0, 1, false, none, [7]⟩ 7 (by decide) (by decide)
+  obtain ⟨c, ch, h1, h2, _⟩ := this
+  have e : c = 3 := by
+    have : lookup (truncate (confirm (confirm (confirm (genesis 0 []) 1 0 [(7, false)]).1 2 0 [(8, false)]).1 3 2
+      [(7, false)]).1 2).1.C 7 = some 3 := by decide
+    rw [this] at h1; cases h1; rfl
+  subst e
+  have : lookup (truncate (confirm (confirm (confirm (genesis 0 []) 1 0 [(7, false)]).1 2 0 [(8, false)]).1 3 2
+      [(7, false)]).1 2).1.B 3 = none := by decide
+  rw [this] at h2; cases h2
 
 end XV.C04
